@@ -357,6 +357,107 @@ impl<'tcx> Interp<'tcx> {
         }
     }
 
+    /// LIN tier: every integer leaf of a returned value becomes a named atom (its interval is kept)
+    fn atomize_val(&mut self, st: &mut State, v: &Val, base: &str, idx: &mut usize) -> Val {
+        match v {
+            Val::Int(i) if i.ty.bits > 8 => {
+                let a = self.fresh_atom(st, i.lo, i.hi, None);
+                self.atom_names.insert(a, format!("{}[{}]", base, *idx));
+                *idx += 1;
+                let mut j = IntV::new(i.lo, i.hi, i.ty);
+                j.taint = i.taint;
+                j.lin = Some(Rc::new(Lin::atom(a)));
+                Val::Int(j)
+            }
+            Val::Tuple(t) => Val::Tuple(Rc::new(t.iter().map(|x| self.atomize_val(st, x, base, idx)).collect())),
+            Val::Enum(e) => Val::Enum(Rc::new(EnumV { variants: e.variants.iter().map(|(k, fs)| (*k, if *k == 0 { fs.iter().map(|x| self.atomize_val(st, x, base, idx)).collect() } else { fs.clone() })).collect() })),
+            Val::Arr(a) if a.len <= 4096 && matches!(a.all_elems_join(), Val::Int(ref i) if i.ty.bits > 8) => {
+                let mut r = ArrV::uniform(Val::Bot, a.len);
+                for k in 0..a.len {
+                    let e = self.atomize_val(st, a.get(k), base, idx);
+                    r.over.insert(k, e);
+                }
+                Val::Arr(Rc::new(r))
+            }
+            Val::Arr(a) if a.len <= 64 => {
+                let mut r = ArrV::uniform(Val::Bot, a.len);
+                for k in 0..a.len {
+                    let e = self.atomize_val(st, a.get(k), base, idx);
+                    r.over.insert(k, e);
+                }
+                Val::Arr(Rc::new(r))
+            }
+            other => other.clone(),
+        }
+    }
+
+    /// LIN tier: how many i32 leaves of the array arguments are EXACTLY their own named atom, in order
+    fn identity_of_args(&self, st: &State, args: &[Val]) -> std::collections::BTreeMap<String, String> {
+        let mut leaves: Vec<IntV> = Vec::new();
+        fn walk(v: &Val, out: &mut Vec<IntV>) {
+            match v {
+                Val::Int(i) if i.ty.bits > 8 => out.push(i.clone()),
+                Val::Tuple(t) => t.iter().for_each(|x| walk(x, out)),
+                Val::Arr(a) if a.len <= 4096 => (0..a.len).for_each(|k| walk(a.get(k), out)),
+                _ => {}
+            }
+        }
+        for a in args {
+            if let Val::Ref(p) = a {
+                let v = self.read_ptr(st, p);
+                if matches!(v, Val::Arr(_)) {
+                    walk(&v, &mut leaves);
+                }
+            }
+        }
+        let at = self.atoms(st);
+        let mut names: Vec<String> = Vec::new();
+        let mut bad: Vec<String> = Vec::new();
+        for (n, i) in leaves.iter().enumerate() {
+            let c = at.concretize(i).unwrap_or_else(|| i.clone());
+            match c.lin.as_ref().and_then(|l| l.single()) {
+                Some((a, 1, 0)) => names.push(self.atom_names.get(&a).cloned().unwrap_or_else(|| format!("a{}", a))),
+                _ => {
+                    names.push("?".into());
+                    if bad.len() < 4 {
+                        bad.push(format!("leaf {}: {} lin={}", n, c.short(), c.lin.as_ref().map(|l| self.render_lin(l)).unwrap_or_else(|| "none".into()).chars().take(160).collect::<String>()));
+                    }
+                }
+            }
+        }
+        // compress the names: base#ord[idx] runs
+        let mut runs: Vec<String> = Vec::new();
+        let mut i = 0;
+        while i < names.len() {
+            let nm = &names[i];
+            let (base, k0) = match nm.rfind('[') {
+                Some(p) if nm.ends_with(']') => (nm[..p].to_string(), nm[p + 1..nm.len() - 1].parse::<usize>().ok()),
+                _ => (nm.clone(), None),
+            };
+            let mut j = i + 1;
+            if let Some(k0) = k0 {
+                while j < names.len() && names[j] == format!("{}[{}]", base, k0 + (j - i)) {
+                    j += 1;
+                }
+                runs.push(format!("{}[{}..{}]", base, k0, k0 + (j - i)));
+            } else {
+                while j < names.len() && names[j] == *nm {
+                    j += 1;
+                }
+                runs.push(format!("{}x{}", nm, j - i));
+            }
+            i = j;
+        }
+        let mut d = std::collections::BTreeMap::new();
+        d.insert("leaves".to_string(), leaves.len().to_string());
+        d.insert("with_form".to_string(), leaves.iter().map(|i| if i.lin.is_some() { '1' } else { '0' }).collect::<String>().as_bytes().chunks(256).map(|c| c.iter().filter(|b| **b == b'1').count().to_string()).collect::<Vec<_>>().join(","));
+        d.insert("exact".to_string(), names.iter().filter(|n| *n != "?").count().to_string());
+        d.insert("runs".to_string(), runs.join(" "));
+        d.insert("not_exact".to_string(), bad.join(" || "));
+        d.insert("path".to_string(), self.call_path());
+        d
+    }
+
     /// fact key of a tracked call: `<caller>: <callee>(<argument places>)`
     fn track_key(&mut self, st: &State, func: &Operand<'tcx>, args: &[rustc_span::Spanned<Operand<'tcx>>]) -> Option<Rc<str>> {
         let bi = self.stack.last().unwrap().clone();
@@ -595,7 +696,8 @@ impl<'tcx> Interp<'tcx> {
         }
         // memoisation of pure functions on the abstract values behind their arguments
         let mut pkey: Option<Vec<Val>> = None;
-        if bi.pure_args && self.region_depth == 0 {
+        let atomized = !self.atomize.is_empty() && self.atomize.iter().any(|p| bi.name.contains(p.as_str()));
+        if bi.pure_args && self.region_depth == 0 && !atomized && !self.lin_tier {
             let mut key = Vec::with_capacity(args.len());
             let mut ok = true;
             for a in &args {
@@ -684,7 +786,9 @@ impl<'tcx> Interp<'tcx> {
             for a in args.iter_mut() {
                 if let Val::Int(i) = a {
                     if i.lo != i.hi && i.lin.as_ref().map(|l| l.single().is_none()).unwrap_or(true) {
-                        let id = self.fresh_atom(&mut st, i.lo, i.hi, None);
+                        // LIN tier: the caller's form stays attached as the definition of the argument atom
+                        let def = if self.lin_tier { i.lin.clone() } else { None };
+                        let id = self.fresh_atom(&mut st, i.lo, i.hi, def);
                         i.lin = Some(Rc::new(Lin::atom(id)));
                         i.affs.clear();
                     }
@@ -697,6 +801,8 @@ impl<'tcx> Interp<'tcx> {
         let viol_before: std::collections::BTreeSet<String> =
             if memo_key.is_some() { self.sites.iter().filter(|(_, s)| s.violated).map(|(k, _)| k.clone()).collect() } else { Default::default() };
         let probe_args: Vec<String> = args.iter().map(|v| v.short()).collect();
+        let ident_entry: std::collections::BTreeMap<String, String> =
+            if !self.ident_pats.is_empty() && !bi.name.contains("{closure") && self.ident_pats.iter().any(|p| bi.name.contains(p.as_str())) { self.identity_of_args(&st, &args) } else { Default::default() };
         let mut fr = FrameSt::new(bi.body.local_decls.len());
         for (i, a) in args.into_iter().enumerate() {
             if i + 1 < fr.locals.len() && i < bi.body.arg_count {
@@ -754,8 +860,15 @@ impl<'tcx> Interp<'tcx> {
             let start = self.region_start.pop().unwrap();
             self.next_atom = start;
             for p in parts.iter_mut() {
+                if self.lin_tier {
+                    // re-express results over the caller's atoms (modulo q) before the region's atoms die
+                    let at = self.atoms(&p.1);
+                    p.2 = lift_region_result(&p.2, &at, start as AtomId);
+                }
                 p.2 = p.2.strip_atoms(start as AtomId);
-                p.1.atoms.truncate(start);
+                if p.1.atoms.len() > start {
+                    Rc::make_mut(&mut p.1.atoms).truncate(start);
+                }
             }
         }
         let mut out: Vec<(State, Val)> = Vec::new();
@@ -771,6 +884,20 @@ impl<'tcx> Interp<'tcx> {
                 v = v.join(&v2);
             }
             out.push((s, v));
+        }
+        if !self.atomize.is_empty() && !bi.name.contains("{closure") && self.atomize.iter().any(|p| bi.name.contains(p.as_str())) {
+            let ord = *self.atomize_count.entry(bi.short.clone()).or_insert(0);
+            self.atomize_count.insert(bi.short.clone(), ord + 1);
+            for o in out.iter_mut() {
+                let mut idx = 0usize;
+                let base = format!("{}#{}", bi.short, ord);
+                let v = o.1.clone();
+                o.1 = self.atomize_val(&mut o.0, &v, &base, &mut idx);
+            }
+        }
+        if !self.ident_pats.is_empty() && !bi.name.contains("{closure") && self.ident_pats.iter().any(|p| bi.name.contains(p.as_str())) {
+            let d = ident_entry.clone();
+            self.probes.push(Probe { what: "identity".into(), inst: bi.name.clone(), ctx: String::new(), data: d });
         }
         if probe_this {
             let mut d = std::collections::BTreeMap::new();
@@ -821,6 +948,32 @@ impl<'tcx> Interp<'tcx> {
             }
         }
         Ok(out)
+    }
+}
+
+/// LIN tier: a scalar result whose form mentions atoms of the region being left is expanded through
+/// the atom definitions (argument atoms are defined by the caller's forms) modulo each modulus of interest
+fn lift_region_result(v: &Val, at: &super::ops::Atoms, start: AtomId) -> Val {
+    match v {
+        Val::Int(i) => {
+            let Some(l) = &i.lin else { return v.clone() };
+            if !l.terms.iter().any(|t| t.0 >= start) {
+                return v.clone();
+            }
+            for q in at.moduli.iter() {
+                if let Some(e) = at.expand_mod(l, *q) {
+                    if e.terms.iter().all(|t| t.0 < start) {
+                        let mut j = i.clone();
+                        j.lin = Some(Rc::new(e));
+                        j.affs.retain(|a| a.atom < start);
+                        return Val::Int(j);
+                    }
+                }
+            }
+            v.clone()
+        }
+        Val::Tuple(t) => Val::Tuple(Rc::new(t.iter().map(|x| lift_region_result(x, at, start)).collect())),
+        other => other.clone(),
     }
 }
 
